@@ -557,14 +557,14 @@ PROPS = {
                      "they were built from (results of calls on these handles are not followed by the translator)"],
     ),
     "C04": dict(
-        thm=["Bgpfu.Thm.C04"],
+        thm=["Bgpfu.Thm.C04", "Bgpfu.Thm.C04Docs"],
         ops=[("agentrun", [])],
         level_text="The run is modelled as a phase program (send all requests of a phase, then await them in order; any "
                    "error ends the run) against a server with one scripted fault. Theorems for EVERY number of loads, "
                    "every fault position and every fault kind: commit is requested only if open, both fetches and all "
                    "loads were positively acknowledged and the connection was still up; a fault at or before the last "
                    "load means no commit and a failed run; the run succeeds iff every request was positively acknowledged. "
-                   "The real Updater::run is executed against an in-memory fake Junos for every position x kind.",
+                   "The real Updater::run is executed against an in-memory fake Junos for every position x kind. Composition with the reply reader of C08 (Thm/C04Docs): with reply DOCUMENTS instead of abstract acknowledgements, commit is requested only if every earlier request was answered by a document the reader accepts (any event lists), and a load answered by ANY grammar document carrying an rpc-error of severity error (before or after warnings, with or without <ok/>) means no commit and a failed run (no_commit_after_error_reply).",
         level_note="Model of the control flow of task.rs / netconf/mod.rs at request granularity; tokio task plumbing "
                    "(spawn, try_join!, block_in_place) is exercised, not modelled. For connection-closing faults the number "
                    "of already pipelined requests the server still reads is a race and is not compared.",
